@@ -64,12 +64,12 @@ type WalkResult struct {
 }
 
 type walker struct {
-	o     WalkOpts
-	st    *stack.Stack
-	w     *absx.World
-	cl    map[string]*wire.Client
-	keys  []string
-	opq   uint32
+	o    WalkOpts
+	st   *stack.Stack
+	w    *absx.World
+	cl   map[string]*wire.Client
+	keys []string
+	opq  uint32
 }
 
 func (wk *walker) client(port string) *wire.Client {
